@@ -6,7 +6,7 @@ from harness import ctl
 LEVEL = 'model_checking'
 MANIFEST = {'category': 'model_checking', 'engine': 'symx+z3',
  'technique': 'symbolic execution of one message + one command through the real gdb Plugin / Controller / PersistentUIState / TerminalUI from an arbitrary pause / selection state, with solver-chosen breakpoint and filter verdicts',
- 'text': 'From every state (paused or not, selection none / first / second connection, second connection known or not) one arriving message with symbolic breakpoint and filter verdicts: the boolean stop() returns to GDB is true iff the breakpoint matcher matches and the message is on the selected connection (when one is selected), a `Stopped at` notice appears iff so; then one command from the pool (resume, quit, filter, breakpoint, connection, help, list, unknown, empty, abbreviations, wl-prefixed spellings, given through the wl / w / wayland / wl<sub> GDB commands): GDB is told exactly `continue` after resume, `quit` after quit, nothing otherwise, and the halted state persists otherwise. The prompt loop of file/run mode issues one more prompt iff the command was neither resume nor quit (all command triples). One step from an arbitrary state covers interleavings of any length.',
+ 'text': 'From every state (paused or not, selection none / first / second connection, second connection known or not) one arriving message with symbolic breakpoint and filter verdicts: the boolean stop() returns to GDB is true iff the breakpoint matcher matches and the message is on the selected connection (when one is selected), a `Stopped at` notice appears iff so; then one command from the pool (resume, quit, filter, breakpoint, connection, help, list, unknown, empty, abbreviations, wl-prefixed spellings, given through the wl / w / wayland / wl<sub> GDB commands): GDB is told exactly `continue` after resume, `quit` after quit, nothing otherwise, and the halted state persists otherwise. The prompt loop of file/run mode issues one more prompt iff the command was neither resume nor quit (all command triples). One step from an arbitrary state covers interleavings of any length. With REAL matcher texts: <= 3 (4) breakpoint commands through the GDB command path (texts may repeat), then two messages in a row (possibly identical) - each halts iff the accumulated matcher selects it, and is recorded.',
  'note': 'Trusted: z3, lib/symx.py, lib/fakegdb. Matchers are abstract leaves (C05); matcher.parse stubbed inside filter/breakpoint commands.'}
 EXPLANATION = MANIFEST['text']
 ASSUMPTIONS = ['abstract matcher leaves', 'fake gdb records execute() calls', 'Message.show stubbed']
